@@ -285,12 +285,6 @@ static void ProcessFile(char const* FileName, LongWord Offset) {
                 }
             }
 
-            if (doit && (ErgStop > MaxAdr)) {
-                errno = 0;
-                fprintf(stderr, " %s\n", getmessage(Num_ErrMsgAdrOverflow));
-                ChkIO(OutName);
-            }
-
             if (doit) {
                 /* an Anfang interessierender Daten */
 
@@ -309,11 +303,21 @@ static void ProcessFile(char const* FileName, LongWord Offset) {
 
                 if (RelAdr) {
                     ErgStart -= StartAdr[InpSegment];
+                    ErgStop -= StartAdr[InpSegment];
                 }
 
                 /* Auf Zieladressbereich verschieben */
 
                 ErgStart += Relocate;
+                ErgStop += Relocate;
+
+                /* the addresses actually written decide about overflow and record type */
+
+                if (ErgStop > MaxAdr) {
+                    errno = 0;
+                    fprintf(stderr, " %s\n", getmessage(Num_ErrMsgAdrOverflow));
+                    ChkIO(OutName);
+                }
 
                 /* Kopf einer Datenzeilengruppe */
 
